@@ -3,20 +3,21 @@
    tools/keepseed.py C17 1 [--result /tmp/seedtest-C17-1.json] [--recheck]"""
 import argparse, json, os, shutil, subprocess, sys
 ap = argparse.ArgumentParser(); ap.add_argument('pid'); ap.add_argument('k'); ap.add_argument('--src', default='/tmp/seed/out')
-ap.add_argument('--result', default=None); ap.add_argument('--note', default='')
+ap.add_argument('--result', default=None); ap.add_argument('--note', default=''); ap.add_argument('--id', default=None)
 a = ap.parse_args()
 src = os.path.join(a.src, a.pid, a.k)
 res_path = a.result or '/tmp/seedtest-%s-%s.json' % (a.pid, a.k)
 t = open(res_path).read(); res = json.loads(t[t.index('{'):])
 assert res['demo_clean'] == 0 and res['demo_patched'] == 1, 'demo does not discriminate'
-dst = os.path.join('/verif/seeded', '%s-%s' % (a.pid, a.k))
+sid = a.id or '%s-%s' % (a.pid, a.k)
+dst = os.path.join('/verif/seeded', sid)
 os.makedirs(dst, exist_ok=True)
 for f in ('patch.diff', 'demo.py', 'notes.md'):
     shutil.copy(os.path.join(src, f), os.path.join(dst, f))
 notes = open(os.path.join(src, 'notes.md')).read()
 detected = {c: {'exit': v['rc'], 'lines': v['lines'][:6]} for c, v in res['checks'].items()}
 meta = {
-    'id': '%s-%s' % (a.pid, a.k), 'breaks_property': a.pid,
+    'id': sid, 'breaks_property': a.pid,
     'origin': 'written by a fresh sub-agent given only the property text and a scratch worktree (nothing from /verif)',
     'needs_to_manifest': notes.strip()[:1500],
     'confirmed': {
